@@ -2,6 +2,11 @@ import Tetro.Lemmas.BoardTrace
 import Tetro.Lemmas.TimerInv
 import Tetro.Proofs.C13
 import Tetro.Proofs.C14
+import Tetro.Proofs.C08
+import Tetro.Proofs.C10
+import Tetro.Proofs.C18
+import Tetro.Proofs.C20
+import Tetro.Proofs.C22
 /-
 PROJECTION LAYER: along any run of the whole machine (`Model/Whole.lean`) each component goes through SOME
 sequence of its OWN operations – so every component theorem that quantifies over all operation sequences
@@ -707,5 +712,354 @@ example : Whole.construct offImg false false = some offW := rfl
     three ticks (the first VBlank request comes at cycle 16 415, `c14_vblank_once`) -/
 example : (Whole.run 4 demo).cpu.regs.exited = false ∧ lcdBefore 3 demo = [.tick, .tick, .tick] ∧
     Tetro.LcdLemmas.sinceOf (lcdBefore 3 demo) = some 3 := by decide +kernel
+
+/-! ## 3. the cartridge -/
+
+/-- the cartridge operation a bus write is: a write to 0000–7FFF (control registers) or A000–BFFF (external RAM /
+    clock registers).  Reads – the CPU's and the DMA engine's – have no effect on the cartridge model. -/
+def cartOp? (p : Cpu.Word × Cpu.Byte) : Option Cart.Op :=
+  if Cart.cartAddr p.1.toNat then some (.write p.1 p.2) else none
+
+def cartWrites (wr : List (Cpu.Word × Cpu.Byte)) : List Cart.Op := wr.filterMap cartOp?
+
+theorem cart_run_append (c : Cart.Mbc) (a b : List Cart.Op) :
+    Cart.run c (a ++ b) = (Cart.run c a).bind fun c' => Cart.run c' b := by
+  induction a generalizing c with
+  | nil => rfl
+  | cons op a ih =>
+    simp only [List.cons_append, Cart.run]
+    cases Cart.step c op with
+    | none => rfl
+    | some c1 => exact ih c1
+
+private theorem cart_fold (wr : List (Cpu.Word × Cpu.Byte)) (c : Cart.Mbc) (hwf : Tetro.CartWF.WellFormed c) :
+    Cart.run c (cartWrites wr) = some (wr.foldl (fun c p => cartAfterWrite c p.1.toNat p.2.toNat) c) := by
+  induction wr generalizing c with
+  | nil => rfl
+  | cons p wr ih =>
+    rw [List.foldl_cons]
+    unfold cartWrites
+    rw [List.filterMap_cons]
+    unfold cartOp?
+    cases hc : Cart.cartAddr p.1.toNat
+    · have e : cartAfterWrite c p.1.toNat p.2.toNat = c := by
+        unfold cartAfterWrite Cart.busWrite; rw [hc]; rfl
+      rw [e]
+      exact ih c hwf
+    · obtain ⟨c1, e1, w1⟩ := Tetro.CartWF.write_ok hwf p.1.toNat p.2.toNat
+      have e : cartAfterWrite c p.1.toNat p.2.toNat = c1 := by
+        unfold cartAfterWrite Cart.busWrite; rw [hc, if_pos rfl, e1]; rfl
+      rw [e]
+      simp only [if_true]
+      show (Cart.step c (.write p.1 p.2)).bind (fun c' => Cart.run c' (cartWrites wr)) = _
+      have es : Cart.step c (.write p.1 p.2) = some c1 := by
+        show Cart.busWrite c p.1.toNat p.2.toNat = some c1
+        unfold Cart.busWrite; rw [hc, if_pos rfl, e1]
+      rw [es, Option.bind_some]
+      exact ih c1 w1
+
+private theorem frame_cart : Frame (fun m : Machine => m.cart) := ⟨fun _ _ => rfl, fun _ _ => rfl⟩
+
+/-- in a reachable state the cartridge is well formed -/
+theorem wholeOk_cart {w : Whole} (h : WholeOk w) : Tetro.CartWF.WellFormed w.b.m.cart := by
+  rcases h.board with hb | ⟨hf, _⟩
+  · exact hb.cart
+  · exact hf.cart
+
+/-- **cartridge, the CPU's part of a cycle**: the controller goes through the CPU's writes below 8000 and in
+    A000–BFFF, in order, and none of them panics -/
+theorem whole_cart_cpu (w : Whole) (hs : w.stopped = false) (hwf : Tetro.CartWF.WellFormed w.b.m.cart) :
+    Cart.run w.b.m.cart (cartWrites (cpuWrites w)) = some (afterCpu w).2.m.cart := by
+  rw [cart_fold _ _ hwf]
+  congr 1
+  exact (cpu_part_fold (fun m => m.cart) frame_cart (fun c p => cartAfterWrite c p.1.toNat p.2.toNat)
+    (fun b a v => board_write_cart b a.toNat v.toNat a.isLt) w hs).symm
+
+/-- the cartridge's operations in the machine cycle that starts in `w`: the CPU's writes, then the clock tick of
+    `mapper.EndMachineCycle` -/
+def cartOpsOf (w : Whole) : List Cart.Op := cartWrites (cpuWrites w) ++ [Cart.Op.tick]
+
+/-- **cartridge, one machine cycle** -/
+theorem whole_cart_trace (w : Whole) (h : w.cycle.stopped = false) (hwf : Tetro.CartWF.WellFormed w.b.m.cart) :
+    Cart.run w.b.m.cart (cartOpsOf w) = some w.cycle.b.m.cart := by
+  obtain ⟨r, o, _, e⟩ := end_cycle_shape w h
+  have hs := (running_before w h).1
+  unfold cartOpsOf
+  rw [cart_run_append, whole_cart_cpu w hs hwf, Option.bind_some]
+  have e1 : w.cycle.b.m.cart = (afterCpu w).2.m.cart.tick := by rw [e]
+  rw [e1]
+  rfl
+
+def cartTrace : Nat → Whole → List Cart.Op
+  | 0, _ => []
+  | n + 1, w => cartOpsOf w ++ cartTrace n w.cycle
+
+/-- **cartridge, any run.**  Along every run of a machine that satisfies the invariant of reachable states the
+    cartridge goes through the `Cart.Op` sequence `cartTrace n w`: per cycle the CPU's writes into the cartridge's
+    address ranges, then one clock tick. -/
+theorem whole_cart_run (n : Nat) (w : Whole) (h : (Whole.run n w).stopped = false) (hok : WholeOk w) :
+    Cart.run w.b.m.cart (cartTrace n w) = some (Whole.run n w).b.m.cart := by
+  induction n generalizing w with
+  | zero => rfl
+  | succ n ih =>
+    have h1 : w.cycle.stopped = false := running_prefix 1 (n + 1) (by omega) w h
+    show Cart.run w.b.m.cart (cartOpsOf w ++ cartTrace n w.cycle) = some (Whole.run n w.cycle).b.m.cart
+    rw [cart_run_append, whole_cart_trace w h1 (wholeOk_cart hok), Option.bind_some]
+    exact ih w.cycle h (whole_cycle_ok w hok)
+
+private theorem not_sound_low {a : Nat} (h : a < 0xFF00) : soundAddr a = false := by
+  unfold soundAddr
+  simp only [Bool.or_eq_false_iff, Bool.and_eq_false_iff, decide_eq_false_iff_not]
+  omega
+
+/-- a bus read in the cartridge's ranges is the controller's read and has no side effect -/
+theorem whole_cart_read (b : Board) (a : Nat) (ha : a < 0x8000 ∨ (0xa000 ≤ a ∧ a < 0xc000)) :
+    b.read? a = (Cart.busRead b.m.cart a).map fun v => (v, b) := by
+  have ha' : a < 65536 := by omega
+  unfold Board.read?
+  rw [(whole_apu_addresses a ha').1, not_sound_low (by omega)]
+  simp only [Bool.false_eq_true, if_false]
+  have er : rH a = .mbc := by
+    unfold rH
+    rw [Tetro.C06.c06_arms.1, Tetro.BusRoute.route_read ha']
+    unfold Tetro.Spec.MemMap.regionOf
+    rcases ha with h | h
+    · rw [if_pos h]
+    · rw [if_neg (by omega), if_neg (by omega), if_pos h.2]
+  rw [er]
+  show Option.map _ (b.m.cart.read a) = Option.map _ (b.m.cart.read a)
+  cases b.m.cart.read a <;> rfl
+
+private theorem construct_cart (img : Cart.Image) (wr au : Bool) (w0 : Whole)
+    (hc : Whole.construct img wr au = some w0) : Cart.construct img = some w0.b.m.cart := by
+  unfold Whole.construct at hc
+  rw [Option.map_eq_some_iff] at hc
+  obtain ⟨c, hc', rfl⟩ := hc
+  exact hc'
+
+/-- **C08 on the whole machine.**  For EVERY image the loader accepts whose size is within the documented range of
+    its controller, after EVERY number of machine cycles the emulator survives, a CPU read of any address below 8000
+    returns the image byte at (documented bank)·4000h + (address mod 4000h), where the bank is the closed form
+    `Spec.Cart.romBank` of the induced history `cartTrace n w0` of control-register writes – whatever program runs. -/
+theorem c08_whole (img : Cart.Image) (wr au : Bool) (w0 : Whole) (hc : Whole.construct img wr au = some w0)
+    (kind : Spec.Cart.Ctrl) (hkind : Tetro.C08.ctrlOf (img.byte 0x0147) = some kind)
+    (hdoc : Tetro.C08.Documented kind (img.len / 0x4000))
+    (n : Nat) (hx : (Whole.run n w0).cpu.regs.exited = false) (a : Nat) (ha : a < 0x8000) :
+    (Whole.run n w0).b.read a =
+      (img.byte (Spec.Cart.romBank kind (img.len / 0x4000) (Tetro.CartSim.hist (cartTrace n w0)) a * 0x4000
+        + a % 0x4000), (Whole.run n w0).b) := by
+  have hs : (Whole.run n w0).stopped = false := by rw [constructed_running img wr au w0 hc n]; exact hx
+  have hrun := whole_cart_run n w0 hs (construct_ok img wr au w0 hc)
+  obtain ⟨c', e, r⟩ := Tetro.C08.c08_image img w0.b.m.cart (construct_cart img wr au w0 hc) kind hkind hdoc
+    (cartTrace n w0) a ha
+  rw [hrun] at e
+  cases e
+  unfold Board.read
+  rw [whole_cart_read _ a (Or.inl ha), r]
+  rfl
+
+/-- **C10 on the whole machine (clock read through an MBC3).**  A reachable machine whose cartridge started as an
+    MBC3 (any ROM/RAM size): while RAM access is enabled and a clock register `sel` is selected by the induced
+    history, a CPU read anywhere in A000–BFFF returns the masked field latched at the most recent 0-then-1 write
+    sequence to 6000–7FFF, the clock having ticked once per machine cycle of the run. -/
+theorem c10_whole_clock_read (w : Whole) (hok : WholeOk w) (rom : Cart.Rom) (k : Nat) (hk : 1 < k) (q : Nat)
+    (hq : 0 < q) (hcart : w.b.m.cart = .mbc3 (Cart.Mbc3.new rom k Cart.freshRam q))
+    (n : Nat) (h : (Whole.run n w).stopped = false) (sel : Nat)
+    (hsel : Spec.Cart.clockSelected (Tetro.CartSim.hist (cartTrace n w)) = some sel)
+    (a : Nat) (ha : Tetro.C09.InWindow a) :
+    (Whole.run n w).b.read a =
+      (Spec.Rtc.readReg (Tetro.C10.snapshot (Spec.Cart.clockEvents (Tetro.CartSim.hist (cartTrace n w)))) sel,
+       (Whole.run n w).b) := by
+  have hrun := whole_cart_run n w h hok
+  obtain ⟨c', e, r⟩ := Tetro.C10.c10_mbc3_clock_read rom k hk q hq (cartTrace n w) sel hsel a ha
+  rw [hcart] at hrun
+  rw [hrun] at e
+  cases e
+  unfold Board.read
+  rw [whole_cart_read _ a (Or.inr ha), r]
+  rfl
+
+/-! ## 4. the APU -/
+
+/-- the APU operation a bus write is: a write to a sound register or wave RAM, under its own address -/
+def apuOp? (p : Cpu.Word × Cpu.Byte) : Option Apu.Apu.Op :=
+  if soundAddr p.1.toNat then some (.write p.1.toNat p.2.toNat) else none
+
+def apuWrites (wr : List (Cpu.Word × Cpu.Byte)) : List Apu.Apu.Op := wr.filterMap apuOp?
+
+/-- **APU, the CPU's part of a cycle** (reads of sound registers do not change the APU) -/
+theorem whole_apu_cpu (w : Whole) (hs : w.stopped = false) :
+    (afterCpu w).2.apu = w.b.apu.run (apuWrites (cpuWrites w)) := by
+  have h := cycle_fold (M := Board) (fun b => b.apu)
+    (fun (x : Apu.Apu) (p : Cpu.Word × Cpu.Byte) => if soundAddr p.1.toNat then x.write p.1.toNat p.2.toNat else x)
+    (fun b a => board_read_apu b a.toNat)
+    (fun b a v => board_write_apu b a.toNat v.toNat a.isLt)
+    (fun b a => rfl) (fun b => board_corrupt_apu b)
+    (fun b v => rfl) (fun b k => rfl) Cpu.Tables.gen w.cpu w.b
+  have e : cpuWrites w = (Cpu.cycle Cpu.Tables.gen w.cpu ({ bus := w.b, wr := [] } : Ghost Board)).2.wr := by
+    unfold cpuWrites; rw [hs]; rfl
+  rw [e]
+  unfold afterCpu
+  rw [h]
+  unfold apuWrites Apu.Apu.run
+  refine fold_filterMap apuOp? _ Apu.Apu.step ?_ _ _
+  intro x p
+  unfold apuOp?
+  cases soundAddr p.1.toNat <;> rfl
+
+/-- the APU's operations in the machine cycle that starts in `w`: the CPU's writes, then `audio.EndMachineCycle` -/
+def apuOpsOf (w : Whole) : List Apu.Apu.Op := apuWrites (cpuWrites w) ++ [Apu.Apu.Op.cycle]
+
+/-- **APU, one machine cycle** -/
+theorem whole_apu_trace (w : Whole) (h : w.cycle.stopped = false) :
+    w.cycle.b.apu = w.b.apu.run (apuOpsOf w) := by
+  rw [end_cycle_apu w h, whole_apu_cpu w (running_before w h).1]
+  unfold apuOpsOf Apu.Apu.run
+  rw [List.foldl_append]
+  rfl
+
+def apuTrace : Nat → Whole → List Apu.Apu.Op
+  | 0, _ => []
+  | n + 1, w => apuOpsOf w ++ apuTrace n w.cycle
+
+/-- **APU, any run** -/
+theorem whole_apu_run (n : Nat) (w : Whole) (h : (Whole.run n w).stopped = false) :
+    (Whole.run n w).b.apu = w.b.apu.run (apuTrace n w) := by
+  induction n generalizing w with
+  | zero => rfl
+  | succ n ih =>
+    have h1 : w.cycle.stopped = false := running_prefix 1 (n + 1) (by omega) w h
+    show (Whole.run n w.cycle).b.apu = _
+    rw [ih w.cycle h, whole_apu_trace w h1]
+    rw [show apuTrace (n + 1) w = apuOpsOf w ++ apuTrace n w.cycle from rfl]
+    unfold Apu.Apu.run
+    rw [List.foldl_append]
+
+private theorem construct_apu (img : Cart.Image) (wr au : Bool) (w0 : Whole)
+    (hc : Whole.construct img wr au = some w0) :
+    w0.b.apu = Apu.Apu.new au au ∧ w0.b.m.joyp = Joyp.init := by
+  unfold Whole.construct at hc
+  rw [Option.map_eq_some_iff] at hc
+  obtain ⟨c, _, rfl⟩ := hc
+  exact ⟨rfl, rfl⟩
+
+/-- a bus read of a sound register / wave RAM byte is the APU model's read -/
+theorem whole_apu_read (b : Board) (a : Nat) (ha : soundAddr a = true) :
+    b.read? a = (b.apu.read a).map fun v => (v, b) := by
+  have ha' : a < 65536 := by
+    unfold soundAddr at ha
+    simp only [Bool.or_eq_true, Bool.and_eq_true, decide_eq_true_eq] at ha
+    omega
+  unfold Board.read?
+  rw [(whole_apu_addresses a ha').1, ha]
+  rfl
+
+/-- **C18 on the whole machine (read-back).**  For EVERY accepted image and EVERY number of machine cycles the
+    emulator survives, a CPU read of each of the 20 registers NR10–NR51 returns the byte the program last wrote to
+    it while sound was on (0 if none since power-on or the last power-off), ORed with its DMG mask – the history
+    being the induced one, `apuTrace n w0`. -/
+theorem c18_whole (img : Cart.Image) (wr au : Bool) (w0 : Whole) (hc : Whole.construct img wr au = some w0)
+    (n : Nat) (hx : (Whole.run n w0).cpu.regs.exited = false) (addr m : Nat)
+    (hm : Spec.Apu.mask addr = some m) (hsound : soundAddr addr = true) :
+    (Whole.run n w0).b.read addr =
+      ((Tetro.C18.lastWritten (apuTrace n w0)).val addr ||| m, (Whole.run n w0).b) := by
+  have hs : (Whole.run n w0).stopped = false := by rw [constructed_running img wr au w0 hc n]; exact hx
+  have hrun := whole_apu_run n w0 hs
+  rw [(construct_apu img wr au w0 hc).1] at hrun
+  unfold Board.read
+  rw [whole_apu_read _ addr hsound, hrun, Tetro.C18.c18_readback au au (apuTrace n w0) addr m hm]
+  rfl
+
+/-- **C20 on the whole machine (bound).**  In every reachable state of a constructed machine the APU satisfies the
+    range invariant, has not hit the `waveduty` index panic, and every sample pair emitted so far is in [0, 1). -/
+theorem c20_whole (img : Cart.Image) (wr au : Bool) (w0 : Whole) (hc : Whole.construct img wr au = some w0)
+    (n : Nat) (hx : (Whole.run n w0).cpu.regs.exited = false) : Tetro.C20.Good (Whole.run n w0).b.apu := by
+  have hs : (Whole.run n w0).stopped = false := by rw [constructed_running img wr au w0 hc n]; exact hx
+  rw [whole_apu_run n w0 hs, (construct_apu img wr au w0 hc).1]
+  exact Tetro.C20.c20_bound_history au au _
+
+/-! ## 5. the joypad -/
+
+/-- the joypad operation a bus write is: a write to FF00 -/
+def joypOp? (p : Cpu.Word × Cpu.Byte) : Option Joyp.Op :=
+  if p.1.toNat = 0xFF00 then some (.write p.2) else none
+
+def joypWrites (wr : List (Cpu.Word × Cpu.Byte)) : List Joyp.Op := wr.filterMap joypOp?
+
+private theorem frame_joyp : Frame (fun m : Machine => m.joyp) := ⟨fun _ _ => rfl, fun _ _ => rfl⟩
+
+/-- **joypad, one machine cycle**: the register goes through the CPU's writes to FF00; nothing else in the cycle
+    touches it -/
+theorem whole_joyp_trace (w : Whole) (h : w.cycle.stopped = false) :
+    w.cycle.b.m.joyp = Joyp.run w.b.m.joyp (joypWrites (cpuWrites w)) := by
+  obtain ⟨r, o, _, e⟩ := end_cycle_shape w h
+  have hs := (running_before w h).1
+  have e1 : w.cycle.b.m.joyp = (afterCpu w).2.m.joyp := by rw [e]
+  rw [e1, cpu_part_fold (fun m => m.joyp) frame_joyp (fun j p => joypAfterWrite j p.1.toNat p.2.toNat)
+    (fun b a v => board_write_joyp b a.toNat v.toNat a.isLt) w hs]
+  unfold joypWrites Joyp.run
+  refine fold_filterMap joypOp? _ Joyp.step ?_ _ _
+  intro x p
+  unfold joypOp? joypAfterWrite
+  by_cases h0 : p.1.toNat = 0xFF00
+  · simp only [h0, if_true]
+    show Joyp.write x (BitVec.ofNat 8 p.2.toNat) = Joyp.write x p.2
+    rw [BitVec.ofNat_toNat, BitVec.setWidth_eq]
+  · simp only [h0, if_false]
+
+/-- an event of the emulator's main loop: a machine cycle, or a button action between two cycles -/
+abbrev Event := Option (Nat × Bool)
+
+def runEvents (evs : List Event) (w : Whole) : Whole :=
+  evs.foldl (fun w e => match e with | none => w.cycle | some kb => w.button kb.1 kb.2) w
+
+/-- the joypad's operations during a schedule of cycles and button actions -/
+def joypTrace : List Event → Whole → List Joyp.Op
+  | [], _ => []
+  | none :: evs, w => joypWrites (cpuWrites w) ++ joypTrace evs w.cycle
+  | some kb :: evs, w => Joyp.Op.button kb.1 kb.2 :: joypTrace evs (w.button kb.1 kb.2)
+
+private theorem events_running (evs : List Event) (w : Whole) (h : (runEvents evs w).stopped = false) :
+    w.stopped = false := by
+  induction evs generalizing w with
+  | nil => exact h
+  | cons e evs ih =>
+    cases e with
+    | none => exact (running_before w (ih w.cycle h)).1
+    | some kb => exact ih (w.button kb.1 kb.2) h
+
+/-- **joypad, any schedule of machine cycles and button actions** -/
+theorem whole_joyp_run (evs : List Event) (w : Whole) (h : (runEvents evs w).stopped = false) :
+    (runEvents evs w).b.m.joyp = Joyp.run w.b.m.joyp (joypTrace evs w) := by
+  induction evs generalizing w with
+  | nil => rfl
+  | cons e evs ih =>
+    cases e with
+    | none =>
+      have h1 : w.cycle.stopped = false := events_running evs w.cycle h
+      show (runEvents evs w.cycle).b.m.joyp = Joyp.run w.b.m.joyp (joypWrites (cpuWrites w) ++ joypTrace evs w.cycle)
+      rw [ih w.cycle h, whole_joyp_trace w h1]
+      unfold Joyp.run
+      rw [List.foldl_append]
+    | some kb =>
+      show (runEvents evs (w.button kb.1 kb.2)).b.m.joyp = _
+      rw [ih (w.button kb.1 kb.2) h]
+      rfl
+
+/-- a bus read of FF00 is `ReadJOYP` -/
+theorem whole_joyp_read (b : Board) : b.read 0xFF00 = ((Joyp.read b.m.joyp).toNat, b) := by
+  have e : rH 0xFF00 = .joyp := by unfold rH; rw [Tetro.C06.c06_arms.1]; decide +kernel
+  unfold Board.read Board.read?
+  rw [e]
+  rfl
+
+/-- **C22 on the whole machine.**  For EVERY accepted image and EVERY schedule of machine cycles and button presses
+    / releases the emulator survives, a CPU read of FF00 returns what the documentation-shaped joypad specification
+    returns after the induced history (the button actions and the program's writes to FF00, in order). -/
+theorem c22_whole (img : Cart.Image) (wr au : Bool) (w0 : Whole) (hc : Whole.construct img wr au = some w0)
+    (evs : List Event) (h : (runEvents evs w0).stopped = false) :
+    (runEvents evs w0).b.read 0xFF00 =
+      ((Spec.Joyp.read ((joypTrace evs w0).foldl Tetro.C22.specStep Spec.Joyp.init)).toNat, (runEvents evs w0).b) := by
+  rw [whole_joyp_read, whole_joyp_run evs w0 h, (construct_apu img wr au w0 hc).2, Tetro.C22.c22_read_refines]
 
 end Tetro.WholeTraces
